@@ -999,6 +999,9 @@ class CodeGenerator(StructuredCodeGenerator):
         self.current_function = None
         self.used = False
 
+        # number of 'do' loops around the statement being emitted
+        self.loop_nesting_depth = 0
+
     # }}}
 
     # {{{ utilities
@@ -2101,8 +2104,10 @@ class CodeGenerator(StructuredCodeGenerator):
                     self.expr(ubound-1)),
                 code_generator=self)
         em.__enter__()
+        self.loop_nesting_depth += 1
 
     def emit_for_end(self, loop_var_name):
+        self.loop_nesting_depth -= 1
         self.emitter.__exit__(None, None, None)
 
     def emit_assign_expr(self, assignee_sym, assignee_subscript, expr):
@@ -2285,6 +2290,11 @@ class CodeGenerator(StructuredCodeGenerator):
         :attr:`current_function`. If so, emit code to deallocate that variable.
         """
         from dagrt.utils import is_state_variable
+
+        if self.loop_nesting_depth:
+            # The statement runs once per iteration, so the variable is still
+            # needed by the next one.  It is released after the exit label.
+            return
 
         read_and_written = inst.get_read_variables() | inst.get_written_variables()
 
